@@ -163,25 +163,14 @@ def sumTruncIndex (s : List Rat) (tot : Tol) (norming : Bool) : Nat :=
 def sumTruncation (s : List Rat) (tot : Tol) (norming : Bool) : List Rat :=
   s.take (sumTruncIndex s tot norming)
 
-/-- The kept vector as returned: numbers, or (renormalising a zero vector) `n` NaNs. -/
-inductive Kept where
-  | vals (l : List Rat)
-  | nans (n : Nat)
-deriving Repr, DecidableEq
-
-/-- `len(new_s)`: the new bond dimension. -/
-def Kept.length : Kept → Nat
-  | .vals l => l.length
-  | .nans n => n
-
-/-- `renormalise_singular_values(s, new_s)`: `new_s * sum(s) / sum(new_s)` elementwise, evaluated
-    left to right.  For non-negative input `sum(new_s) = 0` means all entries are zero and IEEE
-    gives `0 * x / 0 = nan` in every position. -/
-def renormalise (s newS : List Rat) : Kept :=
+/-- `renormalise_singular_values(s, new_s)`: if `sum(new_s) == 0` the vector is returned unchanged
+    (for non-negative input it is all-zero: nothing to rescale; repair F-C10a, commit 8d546e3),
+    otherwise `new_s * sum(s) / sum(new_s)` elementwise, evaluated left to right. -/
+def renormalise (s newS : List Rat) : List Rat :=
   let normOld := s.sum
   let normNew := newS.sum
-  if normNew = 0 then .nans newS.length
-  else .vals (newS.map fun x => x * normOld / normNew)
+  if normNew = 0 then newS
+  else newS.map fun x => x * normOld / normNew
 
 /-- The three-way split of `truncate_singular_values` after the rule was applied:
     `(new_s, s_trunc)` before renormalisation. -/
@@ -201,12 +190,12 @@ def selected (s : List Rat) (p : Params) : List Rat :=
   else valueTruncation s p.totalTol p.relTol
 
 /-- `truncate_singular_values(s, svd_params)`; `none` is the `ValueError` for an empty vector. -/
-def truncate (s : List Rat) (p : Params) : Option (Kept × List Rat) :=
+def truncate (s : List Rat) (p : Params) : Option (List Rat × List Rat) :=
   if s.length = 0 then none
   else
     let sTemp := selected s p
     let (newS, sTrunc) := capSplit s sTemp p.maxBond
-    let kept := if p.renorm then renormalise s newS else .vals newS
+    let kept := if p.renorm then renormalise s newS else newS
     some (kept, sTrunc)
 
 end Ptn.C10
